@@ -563,7 +563,7 @@ def check_c14(p, prop, tier, seed, cfg):
             if rc != 0:
                 v.inconclusive.append(f"{name} shard {sh} exited with {rc}")
     base = TX_VARIANTS[0][0]
-    kinds = {"E": "compressed-bytes", "V": "valid-decode", "D": "corrupt-decode", "T": "tiny-chunk-decode",
+    kinds = {"E": "compressed-bytes", "W": "window-edge-encode", "V": "valid-decode", "D": "corrupt-decode", "T": "tiny-chunk-decode",
              "B": "direct-bits-kernel", "N": "normalize-kernel"}
     lines_compared = 0
     per_kind = {}
